@@ -157,3 +157,43 @@ package xlsx
 //@   loop 1:
 //@     invariant len(r.sharedStrings) == len(sst.SI) && ($i == 0 ==> len(text) == 0)
 //@     step runs_concatenated_in_order: same(text, strcat(prev(text), run.T))
+
+// content bounds: every non-empty cell of the grid lies inside the bounds
+//@ func (*Reader) findContentBounds results (minRow, maxRow, minCol, maxCol)
+//@   property C17
+//@   flags pure, readonly
+//@   requires sheet.MaxCol >= 0 - 1
+//@   ensures encloses_every_value: forall a int, b int :: {sheet.Rows[a][b]} 0 <= a && a < len(sheet.Rows) && 0 <= b && b < len(sheet.Rows[a]) && !sheet.Rows[a][b].IsEmpty() ==> minRow <= a && a <= maxRow && minCol <= b && b <= maxCol
+//@   ensures within_grid: minRow >= 0 && maxRow < len(sheet.Rows) && minCol >= 0 && maxRow >= 0 - 1 && maxCol >= 0 - 1
+//@   loop 0:
+//@     invariant minRow >= 0 && maxRow < $i && maxRow < len(sheet.Rows) && minCol >= 0 && maxRow >= 0 - 1 && maxCol >= 0 - 1
+//@     invariant forall a int, b int :: {sheet.Rows[a][b]} 0 <= a && a < $i && 0 <= b && b < len(sheet.Rows[a]) && !sheet.Rows[a][b].IsEmpty() ==> minRow <= a && a <= maxRow && minCol <= b && b <= maxCol
+//@   loop 1:
+//@     invariant minRow >= 0 && maxRow <= rowIdx && minCol >= 0 && maxRow >= 0 - 1 && maxCol >= 0 - 1
+//@     invariant forall a int, b int :: {sheet.Rows[a][b]} 0 <= a && a < rowIdx && 0 <= b && b < len(sheet.Rows[a]) && !sheet.Rows[a][b].IsEmpty() ==> minRow <= a && a <= maxRow && minCol <= b && b <= maxCol
+//@     invariant forall b int :: {row[b]} 0 <= b && b < $i && !row[b].IsEmpty() ==> minRow <= rowIdx && rowIdx <= maxRow && minCol <= b && b <= maxCol
+
+// the table of a sheet: header = first content row, then one table row per content row below it; table cell (k, c) is
+// the grid cell (minRow + 1 + k, minCol + c)
+//@ func (*Reader) sheetToTable results (table)
+//@   property C17
+//@   requires sheet.MaxCol >= 0 - 1
+//@   let r0 = r.findContentBounds(sheet)
+//@   let r1 = r.findContentBounds$1(sheet)
+//@   let c0 = r.findContentBounds$2(sheet)
+//@   let c1 = r.findContentBounds$3(sheet)
+//@   ensures empty_sheet_empty_table: r0 > r1 || c0 > c1 ==> len(table.Headers) == 0 && len(table.Rows) == 0
+//@   ensures header_is_first_content_row: r0 <= r1 && c0 <= c1 ==> len(table.Headers) == c1 - c0 + 1 && forall c int :: {table.Headers[c]} 0 <= c && c <= c1 - c0 && c0 + c < len(sheet.Rows[r0]) ==> table.Headers[c] == sheet.Rows[r0][c0 + c].Value
+//@   ensures body_rows_in_grid_order: r0 <= r1 && c0 <= c1 ==> len(table.Rows) == r1 - r0 && forall k int :: {table.Rows[k]} 0 <= k && k < r1 - r0 ==> len(table.Rows[k]) == c1 - c0 + 1 && forall c int :: {table.Rows[k][c]} 0 <= c && c <= c1 - c0 && c0 + c < len(sheet.Rows[r0 + 1 + k]) ==> table.Rows[k][c] == sheet.Rows[r0 + 1 + k][c0 + c].Value
+//@   loop 0:
+//@     invariant minCol <= col && col <= maxCol + 1 && len(table.Headers) == col - minCol && len(table.Rows) == 0
+//@     invariant forall c int :: {table.Headers[c]} 0 <= c && c < col - minCol && minCol + c < len(sheet.Rows[minRow]) ==> table.Headers[c] == sheet.Rows[minRow][minCol + c].Value
+//@     decreases maxCol + 1 - col
+//@   loop 1:
+//@     invariant minRow + 1 <= row && row <= maxRow + 1 && len(table.Rows) == row - minRow - 1 && same(table.Headers, entry(table.Headers))
+//@     invariant forall k int :: {table.Rows[k]} 0 <= k && k < row - minRow - 1 ==> len(table.Rows[k]) == maxCol - minCol + 1 && forall c int :: {table.Rows[k][c]} 0 <= c && c <= maxCol - minCol && minCol + c < len(sheet.Rows[minRow + 1 + k]) ==> table.Rows[k][c] == sheet.Rows[minRow + 1 + k][minCol + c].Value
+//@     decreases maxRow + 1 - row
+//@   loop 2:
+//@     invariant minCol <= col && col <= maxCol + 1 && len(rowData) == col - minCol
+//@     invariant forall c int :: {rowData[c]} 0 <= c && c < col - minCol && minCol + c < len(sheet.Rows[row]) ==> rowData[c] == sheet.Rows[row][minCol + c].Value
+//@     decreases maxCol + 1 - col
